@@ -34,6 +34,7 @@ pub struct BigUint {
 //@ end
 //@ include prelude/biguint_view.rs
 pub open spec fn p2(k: nat) -> nat { vstd::arithmetic::power2::pow2(k) }
+pub open spec fn rev8(s: Seq<u8>) -> Seq<u8> { Seq::new(s.len(), |i: int| s[s.len() - 1 - i]) }
 impl BigUint {
 //@ stub u_core/is_zero
 }
@@ -53,11 +54,11 @@ fn ilog2(v: u32) -> (r: u8)
 
 //@ stub u_digits/to_inexact_bitwise_digits_le
 
-//@ assume to_radix_digits_le : digit-bound part of the contract only (every pushed digit is `r % radix`); unit pending
+//@ assume to_radix_digits_le : repeated single-digit division by radix^power with sqrt-size super-digit splitting for long inputs (src/biguint/convert.rs); ASSUMED with the value-level contract taken from the property statement (digits below radix, positional value equals the input, no leading zero digit)
 #[verifier::external_body]
 fn to_radix_digits_le(u: &BigUint, radix: u32) -> (r: Vec<u8>)
     requires u.wf(), u.v() != 0, 3 <= radix <= 255, !is_pow2_u32(radix)
-    ensures r@.len() >= 1, digits_below(r@, radix)
+    ensures r@.len() >= 1, digits_below(r@, radix), valr(r@, radix as nat, r@.len()) == u.v(), r@[r@.len() - 1] != 0
 { unimplemented!() }
 
 pub proof fn lemma_pow2_bits(radix: u32, bits: u8)
@@ -76,28 +77,47 @@ pub proof fn lemma_not_pow2_range(radix: u32)
     assert(256u32 & ((256u32 - 1) as u32) == 0) by (bit_vector);
 }
 
+/// a power-of-two radix 2 <= radix <= 256 with (1 << bits) == radix is 2^bits
+pub proof fn lemma_radix_is_p2(radix: u32, bits: u8)
+    requires 1 <= bits <= 8, (1u32 << bits) == radix
+    ensures radix as nat == p2(bits as nat)
+{
+    vstd::arithmetic::power2::lemma2_to64();
+    assert((1u32 << 1u8) == 2 && (1u32 << 2u8) == 4 && (1u32 << 3u8) == 8 && (1u32 << 4u8) == 16 && (1u32 << 5u8) == 32 && (1u32 << 6u8) == 64 && (1u32 << 7u8) == 128 && (1u32 << 8u8) == 256) by (bit_vector);
+}
+
 //@ extract src/biguint/convert.rs :: fn to_radix_le rules=R0,R11 props=C06,C14
 pub(super) fn to_radix_le(u: &BigUint, radix: u32) -> /*+*/(r: /*-*/Vec<u8>/*+*/)/*-*/
 //+{
     requires u.wf(), !mp() ==> 2 <= radix <= 256
     ensures mp() ==> 2 <= radix <= 256, r@.len() >= 1, digits_below(r@, radix),
         u.v() == 0 ==> r@ =~= seq![0u8],
+        valr(r@, radix as nat, r@.len()) == u.v(),
+        u.v() != 0 ==> r@[r@.len() - 1] != 0,
 //+}
 {
     __assert(2 <= radix && radix <= 256);
     if u.is_zero() {
-        vec![0]
+//+{
+        proof { assert(valr(seq![0u8], radix as nat, 1) == valr(seq![0u8], radix as nat, 0) + 0 * (vstd::arithmetic::power::pow(radix as int, 0) as nat)); assert(0 * (vstd::arithmetic::power::pow(radix as int, 0) as nat) == 0) by (nonlinear_arith); }
+//+}
+        /*+*/let z = /*-*/vec![0]/*+*/; proof { assert(z@ =~= seq![0u8]); } z/*-*/
     } else if radix.is_power_of_two() {
         // Powers of two can use bitwise masks and shifting instead of division
         let bits = ilog2(radix);
 //+{
         proof { lemma_pow2_bits(radix, bits); }
 //+}
-        if big_digit::BITS % bits == 0 {
+        /*+*/let r = /*-*/if big_digit::BITS % bits == 0 {
             to_bitwise_digits_le(u, bits)
         } else {
             to_inexact_bitwise_digits_le(u, bits)
+        }/*+*/;
+        proof {
+            lemma_valb_is_valr(r@, bits as nat, r@.len());
+            lemma_radix_is_p2(radix, bits);
         }
+        r/*-*/
     } else if radix == 10 {
         // 10 is so common that it's worth separating out for const-propagation.
         // Optimizers can often turn constant division into a faster multiplication.
@@ -115,6 +135,16 @@ pub(super) fn to_radix_le(u: &BigUint, radix: u32) -> /*+*/(r: /*-*/Vec<u8>/*+*/
 //@ end
 
 pub open spec fn is_ascii_digit_lc(b: u8) -> bool { (48 <= b <= 57) || (97 <= b <= 122) }
+/// digit value of a lower-case ASCII digit character
+pub open spec fn dec(b: u8) -> u8 { if b <= 57 { (b - 48) as u8 } else { (b - 87) as u8 } }
+pub open spec fn dec_seq(s: Seq<u8>) -> Seq<u8> { Seq::new(s.len(), |i: int| dec(s[i])) }
+pub proof fn lemma_valr_ext(s: Seq<u8>, t: Seq<u8>, radix: nat, k: nat)
+    requires forall|i: int| 0 <= i < k ==> s[i] == t[i]
+    ensures valr(s, radix, k) == valr(t, radix, k)
+    decreases k
+{
+    if k > 0 { lemma_valr_ext(s, t, radix, (k - 1) as nat); }
+}
 
 //@ extract src/biguint/convert.rs :: fn to_str_radix_reversed rules=R0,R10v,R11,R14 props=C06,C14,C15
 pub(crate) fn to_str_radix_reversed(u: &BigUint, radix: u32) -> /*+*/(r: /*-*/Vec<u8>/*+*/)/*-*/
@@ -122,17 +152,30 @@ pub(crate) fn to_str_radix_reversed(u: &BigUint, radix: u32) -> /*+*/(r: /*-*/Ve
     requires u.wf(), !mp() ==> 2 <= radix <= 36
     ensures mp() ==> 2 <= radix <= 36, r@.len() >= 1, forall|i: int| 0 <= i < r@.len() ==> is_ascii_digit_lc(#[trigger] r@[i]),
         u.v() == 0 ==> r@ =~= seq![48u8],
+        valr(dec_seq(r@), radix as nat, r@.len()) == u.v(),
+        forall|i: int| 0 <= i < r@.len() ==> (dec(#[trigger] r@[i]) as u32) < radix,
+        u.v() != 0 ==> r@[r@.len() - 1] != 48,
 //+}
 {
     __assert(2 <= radix && radix <= 36);
 
     if u.is_zero() {
+//+{
+        proof {
+            assert forall|s: Seq<u8>| s.len() == 1 && s[0] == 48u8 implies valr(#[trigger] dec_seq(s), radix as nat, 1) == 0 by {
+                let z = dec_seq(s);
+                assert(valr(z, radix as nat, 1) == valr(z, radix as nat, 0) + (z[0] as nat) * (vstd::arithmetic::power::pow(radix as int, 0) as nat));
+                assert(0 * (vstd::arithmetic::power::pow(radix as int, 0) as nat) == 0) by (nonlinear_arith);
+            }
+        }
+//+}
         return vec![b'0'];
     }
 
     let mut res = to_radix_le(u, radix);
 //+{
     let ghost n = res@.len();
+    let ghost orig = res@;
 //+}
 
     // Now convert everything to ASCII digits.
@@ -142,6 +185,9 @@ pub(crate) fn to_str_radix_reversed(u: &BigUint, radix: u32) -> /*+*/(r: /*-*/Ve
             res@.len() == n, i__ <= n, 2 <= radix <= 36,
             forall|j: int| 0 <= j < i__ ==> is_ascii_digit_lc(#[trigger] res@[j]),
             forall|j: int| i__ <= j < n ==> (#[trigger] res@[j] as u32) < radix,
+            orig.len() == n, forall|j: int| 0 <= j < n ==> (#[trigger] orig[j] as u32) < radix,
+            forall|j: int| 0 <= j < i__ ==> dec(#[trigger] res@[j]) == orig[j],
+            forall|j: int| i__ <= j < n ==> #[trigger] res@[j] == orig[j],
         decreases n - i__
 //+}
     { let r = &mut res.as_mut_slice()[i__] ; i__ += 1 ;
@@ -151,6 +197,13 @@ pub(crate) fn to_str_radix_reversed(u: &BigUint, radix: u32) -> /*+*/(r: /*-*/Ve
             *r += b'a' - 10;
         }
     } }
+//+{
+    proof {
+        lemma_valr_ext(dec_seq(res@), orig, radix as nat, n);
+        // a non-zero top digit maps to a character other than '0'
+        if u.v() != 0 { assert(dec(res@[n - 1]) == orig[n - 1]); }
+    }
+//+}
     res
 }
 //@ end
@@ -159,6 +212,7 @@ pub(crate) fn to_str_radix_reversed(u: &BigUint, radix: u32) -> /*+*/(r: /*-*/Ve
 use self::convert::to_str_radix_reversed;
 use self::convert::digits_below;
 use self::convert::is_ascii_digit_lc;
+use self::convert::{dec, dec_seq};
 
 impl BigUint {
 //@ extract src/biguint.rs :: impl BigUint :: fn to_str_radix rules=R0,R1u props=C06,C14,C15
@@ -189,7 +243,8 @@ impl BigUint {
     pub fn to_radix_le(&self, radix: u32) -> /*+*/(r: /*-*/Vec<u8>/*+*/)/*-*/
 //+{
         requires self.wf(), !mp() ==> 2 <= radix <= 256
-        ensures mp() ==> 2 <= radix <= 256, r@.len() >= 1, digits_below(r@, radix)
+        ensures mp() ==> 2 <= radix <= 256, r@.len() >= 1, digits_below(r@, radix),
+            valr(r@, radix as nat, r@.len()) == self.v(), self.v() == 0 ==> r@ =~= seq![0u8], self.v() != 0 ==> r@[r@.len() - 1] != 0
 //+}
     {
         convert::to_radix_le(self, radix)
@@ -200,7 +255,8 @@ impl BigUint {
     pub fn to_radix_be(&self, radix: u32) -> /*+*/(r: /*-*/Vec<u8>/*+*/)/*-*/
 //+{
         requires self.wf(), !mp() ==> 2 <= radix <= 256
-        ensures mp() ==> 2 <= radix <= 256, r@.len() >= 1, digits_below(r@, radix)
+        ensures mp() ==> 2 <= radix <= 256, r@.len() >= 1, digits_below(r@, radix),
+            valr(rev8(r@), radix as nat, r@.len()) == self.v(), self.v() == 0 ==> r@ =~= seq![0u8], self.v() != 0 ==> r@[0] != 0
 //+}
     {
         let mut v = convert::to_radix_le(self, radix);
@@ -213,6 +269,7 @@ impl BigUint {
             assert forall|i: int| 0 <= i < v@.len() implies (#[trigger] v@[i] as u32) < radix by {
                 assert(v@[i] == v0[v0.len() - 1 - i]);
             }
+            assert(rev8(v@) =~= v0);
         }
 //+}
         v
